@@ -399,6 +399,16 @@ func (w *world) do(i int, st step) *mismatch {
 	if m = w.await(i, st.Exp, t0); m != nil {
 		return m
 	}
+	if len(st.Exp) == 0 && (st.A == "Unload" || st.A == "RlLock") {
+		// the model has the loader blocked in (or past) handleMu.Lock() and no hook point announces it
+		t := time.Now()
+		for !w.rt.VerifHandleLockBusy() {
+			if time.Since(t) > w.dl {
+				return &mismatch{Step: i, Kind: "timeout", Why: "the loader does not reach handleMu.Lock()"}
+			}
+			runtime.Gosched()
+		}
+	}
 	for p := 1; p <= w.c.NProgs; p++ {
 		want := int64(0)
 		if g := st.G[p-1]; g[0] != 0 {
@@ -676,6 +686,7 @@ func main() {
 			out, stuck := runCase(&c)
 			cnt++
 			vh.Out(out)
+			vh.Flush() // a crash of the code under test in a later case must not lose this result
 			if stuck {
 				vh.Out(map[string]any{"abandon": true, "at": c.ID})
 				vh.Flush()
